@@ -248,6 +248,9 @@ func TestC05(t *testing.T) {
 		)
 		suppAny := rapid.OneOf(suppCanon, suppCanon, suppCanon, rapid.Uint64(), rapid.SampledFrom(c05Supp))
 		rapid.Check(t, func(rt *rapid.T) {
+			if pastSoftDeadline(st) {
+				return
+			}
 			op := rapid.SampledFrom([]string{"supply", "transfer", "drain"}).Draw(rt, "op")
 			canonOnly := rapid.Bool().Draw(rt, "canonOnly")
 			sg := suppAny
